@@ -20,6 +20,18 @@ Record case := mk {
   c_init : list event;              (* events before the first operation, oldest first *)
   c_steps : list (op * obs) }.
 
+(* monomorphic builders for the generated case files (numbers arrive as N) *)
+Definition E (b o : N) : event := (N.to_nat b, o).
+Definition Rf (b rc : N) (d : bool) : nat * (N * bool) := (N.to_nat b, (rc, d)).
+Definition Pn (slot b : N) : nat * nat := (N.to_nat slot, N.to_nat b).
+Definition Ob (ev : list event) (res served : N) (refs : list (nat * (N * bool))) (pins : list (nat * nat))
+  (uac dc : N) : obs := mkObs ev res (N.to_nat served) refs pins uac dc.
+Definition St (o : op) (ob : obs) : op * obs := (o, ob).
+Definition OAcq (r : N) := Acquire (N.to_nat r).
+Definition OUse (r : N) := Use (N.to_nat r).
+Definition ORel (r : N) := Release (N.to_nat r).
+Definition OLate (i : N) (c : cand) := LateComplete (N.to_nat i) c.
+
 Definition ev_eqb (a b : event) : bool := Nat.eqb (fst a) (fst b) && (snd a =? snd b).
 Fixpoint evs_eqb (a b : list event) : bool :=
   match a, b with
